@@ -81,6 +81,24 @@ def run(ck, rng):
             if rng.random() < 0.3:
                 pre.append((tjoin(b"tgt", items[0][1] + b"/zz_extra"), "d"))
         scen.append((entry, doc, items, exts, pre, strict, tag, kind))
+    # large documents (well beyond the scanner's 4 KiB buffer) and over-long lines
+    for _ in range(12 if ck.tier == "quick" else 200):
+        nroots = rng.choice([150, 300, 600])
+        items = []
+        for r in range(nroots):
+            items.append((1, b"root_number_%d" % r))
+            for c in range(rng.randint(0, 3)):
+                items.append((2, b"child_%d_with_a_longer_name" % c))
+        sp = gen_spelling(rng, items, allow_heading=False, blanks=False)
+        entry = rng.choice(["out-d", "out-j", "walk", "out-dry"])
+        scen.append((entry, spell(items, sp), items, [], [(b"tgt", "d")], "0", None, "ok"))
+    for n in (65535, 65536) * (4 if ck.tier == "quick" else 20):
+        for pos in ("first", "late"):
+            items = [(1, b"r%d" % r) for r in range(6)]
+            lines = [b"- r%d" % r for r in range(6)]
+            long = b"- " + b"x" * (n - 2)
+            lines = ([long] + lines) if pos == "first" else (lines + [long])
+            scen.append(("out-d", b"\n".join(lines) + b"\n", [], [], [(b"tgt", "d")], "0", None, "long"))
     # the known-finding inputs
     k1 = b"# a\n- b\n- c\n# d\n- e\n"
     k2 = b"- a\n - b\n - c\n- r\n\t- s\n\t- t\n- u\n - v\n"
@@ -102,7 +120,7 @@ def run(ck, rng):
     # per-root reference blocks (simple mode on each root's own sub-document)
     bcases, bref = [], []
     for si, (entry, doc, items, exts, pre, strict, tag, kind) in enumerate(scen):
-        if entry in ("out-d", "out-dry") and kind == "ok":
+        if entry in ("out-d", "out-dry") and kind == "ok" and len(items) < 400:
             for blk in split_roots(items):
                 bcases.append(simple_case(entry, spell(blk, plain_spelling(blk)), exts, pre, strict))
                 bref.append(si)
